@@ -36,15 +36,15 @@ def UF(name, n=1):
 
 
 def rationalize(x: float) -> Fraction:
-    """Exact rational of a float, or a nearby small rational when within 1e-12 relative
-    (compiler-produced constants such as 1.0000000000e-01 or n/d chain rates)."""
-    fr = Fraction(float(x))
-    if fr.denominator <= 10 ** 6:
+    """Exact rational value of a float -- except when the float is precisely the double nearest to a small rational
+    (1.0000000000e-01 -> 1/10, 0.3333333333333333 -> 1/3, chain rates n/d): then that rational, which is what the
+    compiler meant.  The round trip float(p/q) == x makes the snap exact, never approximate."""
+    x = float(x)
+    fr = Fraction(x)
+    if fr.denominator <= 4096:
         return fr
-    ap = fr.limit_denominator(10 ** 6)
-    if ap == 0:
-        return fr
-    if abs(float(ap) - float(x)) <= 1e-12 * abs(float(x)):
+    ap = fr.limit_denominator(4096)
+    if ap != 0 and float(ap) == x:
         return ap
     return fr
 
